@@ -8,9 +8,11 @@ CONSTANTS
   Flatten = "logical"
   Mags8 = {40}
   Mags4 = {20}
+  GridDtypes = {"i8","i4","i2","f4","f8"}
   Export = TRUE
 INVARIANT OffsetBijective
 INVARIANT ViewFaithful
 INVARIANT PlaneHandedLogical
 CONSTRAINT EmitStores
+CONSTRAINT EmitGridTypes
 CHECK_DEADLOCK FALSE
